@@ -53,8 +53,9 @@ def evaluated_registry(ctx):
         return ctx.cache["C18.evalreg"]
     mod = ctx.p.module(CF)
     REG = _FakeRegistry()
-    shared = {"Connectors": (lambda: REG), "operator": {MODKEY_: "operator", **{k: getattr(_op, k) for k in ("lt", "le", "gt", "ge", "eq", "ne", "not_", "and_", "or_")}},
-              "Connector": "Connector"}
+    from ..core.interp import STDLIB_CALLS, STDLIB_MODELS
+    shared = {"Connectors": (lambda: REG), "operator": STDLIB_MODELS["operator"], "Connector": "Connector"}
+    shared.update({local: STDLIB_MODELS[imp[1]] for local, imp in ctx.r.imports.get(CF, {}).items() if imp[0] == "module" and imp[1] in STDLIB_MODELS and "." not in local})
 
     def type_of(x):
         return bool if isinstance(x, bool) else int if isinstance(x, int) else "Connector" if isinstance(x, FakeConn) else "ExpressionReference"
@@ -75,6 +76,11 @@ def evaluated_registry(ctx):
     REG.create_connector_and_simplify = create_and_simplify
 
     def hook(fname, args, kwargs):
+        if fname in STDLIB_CALLS:
+            try:
+                return STDLIB_CALLS[fname](*args, **kwargs)
+            except (TypeError, ValueError, IndexError, KeyError) as ex:
+                raise Raised(type(ex).__name__)
         raise Unsupported(f"call {fname}")
 
     def closure(node):
@@ -292,9 +298,23 @@ def _simplifier_funcs(ctx, reg):
     return res
 
 
+def _tracked_list(f, exprs):
+    """Every starred expression is a local name whose bindings in f are list displays / list() and whose growth is by append / extend / +=
+    (what the interval analysis follows)."""
+    for e in exprs:
+        if not isinstance(e, ast.Name):
+            return False
+        binds = [n for n in own_nodes(f.node) if isinstance(n, ast.Assign) and any(is_name(t, e.id) for t in n.targets)]
+        if not binds or not all(isinstance(b.value, (ast.List, ast.Tuple)) or (isinstance(b.value, ast.Call) and call_name(b.value) == "list" and not b.value.args)
+                                for b in binds):
+            return False
+    return True
+
+
 def rule_c(ctx, out):
     mod, reg = registry(ctx)
     simps = _simplifier_funcs(ctx, reg)
+    runner = _simplifier_runner(ctx)
     for name, f in sorted(simps.items()):
         if reg[name]["arity"] != -1:
             continue
@@ -313,6 +333,24 @@ def rule_c(ctx, out):
             lo = sum(l[0] for l in lens) if lens else 0
             if lo >= 1:
                 out.ok({"simplifier": f.name, "site": short(c), "len_interval": [str(lens[0][0]), str(lens[0][1])]})
+            elif not _tracked_list(f, [s.value for s in star]):
+                # the argument list is not built by appends the interval analysis follows (a comprehension, a reduce, a helper): the
+                # analysis has no bound, which is not a finding.  Decided on the applications that make the list empty instead: every
+                # argument the neutral literal, 1..4 of them (C18.d evaluates the mixed shapes and reports any AssertionError there)
+                raised = None
+                for k in (1, 2, 3, 4):
+                    try:
+                        runner[4](f, runner[3](name, *([NEUTRAL[name]] * k)))
+                    except Raised as e:
+                        raised = (k, e.what)
+                        break
+                    except Unsupported as e:
+                        raise AnalysisError(f"{f.name}: cannot evaluate abstractly on {k} neutral arguments: {e}")
+                if raised is None:
+                    out.ok({"simplifier": f.name, "site": short(c), "decided": "by evaluation on 1..4 neutral arguments (list not built by tracked appends)"})
+                else:
+                    out.bad(f"{f.name}:empty-connector", f"{f.name} applied to {raised[0]} neutral argument(s) raises {raised[1]}: {short(c)} is reached with an "
+                            f"empty argument list", where(f, c))
             else:
                 out.bad(f"{f.name}:empty-connector", f"{f.name} can call {short(c)} with an empty argument list (e.g. all arguments were the "
                         f"neutral literal): create_connector asserts len(args) > 0", where(f, c))
@@ -413,11 +451,28 @@ def _truth(f, val):
     raise Unsupported(f"cannot evaluate {f!r}")
 
 
-def rule_d(ctx, out):
+def _fresh(x):
+    """A structurally equal formula made of new connector objects (operands are never shared between two evaluated applications)."""
+    if isinstance(x, FakeConn):
+        return FakeConn(x.connector_name, x.is_commutative, *[_fresh(a) for a in x.arguments])
+    return x
+
+
+def _simplifier_runner(ctx):
+    """(reg, simps, mk, run): the simplifiers of connector_factory interpreted on stand-in connectors.  FakeConn.arguments is the connector's
+    own list, as Connector.arguments is (premise checked: the property returns the attribute __init__ stores, uncopied)."""
+    from ..core.interp import STDLIB_CALLS, STDLIB_MODELS
     mod, reg = registry(ctx)
     simps = _simplifier_funcs(ctx, reg)
-    p, q = Atom("p"), Atom("q")
     comm = {k: v["comm"] for k, v in reg.items()}
+    ccls = ctx.p.cls("smt_encoding.constraints.connector.Connector")
+    prop = ccls.methods.get("arguments")
+    init = ccls.methods.get("__init__")
+    if prop is None or init is None:
+        raise AnalysisError("Connector.arguments / __init__ not found")
+    rets = [n for n in own_nodes(prop.node) if isinstance(n, ast.Return)]
+    if len(rets) != 1 or not (isinstance(rets[0].value, ast.Attribute) and is_name(rets[0].value.value, "self")):
+        raise AnalysisError("Connector.arguments no longer returns a stored attribute: the stand-in connector of C18 must be re-modelled")
 
     def mk(name, *args):
         return FakeConn(name, comm.get(name, False), *args)
@@ -444,17 +499,31 @@ def rule_d(ctx, out):
         if fname == "type":
             x = args[0]
             return bool if isinstance(x, bool) else int if isinstance(x, int) else "Connector" if isinstance(x, FakeConn) else "ExpressionReference"
+        if fname in STDLIB_CALLS:
+            try:
+                return STDLIB_CALLS[fname](*args, **kwargs)
+            except (TypeError, ValueError, IndexError, KeyError) as ex:
+                raise Raised(type(ex).__name__)
         helper = ctx.p.functions.get(f"{CF}.{fname}")
         if helper is not None and helper.cls is None:
             return run(helper, *args, **kwargs)        # a helper extracted from a simplifier: interpreted like the simplifier itself
         raise Unsupported(f"call {fname}")
 
+    stdlib = {local: STDLIB_MODELS[imp[1]] for local, imp in ctx.r.imports.get(CF, {}).items() if imp[0] == "module" and imp[1] in STDLIB_MODELS and "." not in local}
+
     def run(f, *cargs, **ckwargs):
         def type_of(x):
             return bool if isinstance(x, bool) else int if isinstance(x, int) else "Connector" if isinstance(x, FakeConn) else "ExpressionReference"
-        ev = Evaluator(f.node, globals_env={"Connector": "Connector", "bool": bool, "int": int, "type": type_of, "_connectors": {"\0module": "_connectors"}},
+        ev = Evaluator(f.node, globals_env={**stdlib, "Connector": "Connector", "bool": bool, "int": int, "type": type_of, "_connectors": {"\0module": "_connectors"}},
                        call_hook=hook, obj_types=(FakeConn,))
         return ev.call(*cargs, **ckwargs)
+
+    return mod, reg, simps, mk, run
+
+
+def rule_d(ctx, out):
+    mod, reg, simps, mk, run = _simplifier_runner(ctx)
+    p, q = Atom("p"), Atom("q")
 
     shapes = {
         "and": [True, False, p, q, mk("and", p, q), mk("not", p), mk("or", p, q)],
@@ -464,6 +533,7 @@ def rule_d(ctx, out):
         "=": [True, False, p, q],
     }
     vals = [dict(p=a, q=b) for a in (False, True) for b in (False, True)]
+    mutating = set()
     for name, f in sorted(simps.items()):
         if name not in shapes:
             continue
@@ -471,9 +541,23 @@ def rule_d(ctx, out):
         arities = ([1, 2, 3, 4] if ctx.tier == "thorough" else [1, 2, 3]) if ar == -1 else [ar]
         for k in arities:
             for combo in itertools.product(shapes[name], repeat=k):
+                combo = tuple(_fresh(x) for x in combo)
+                before = [repr(x) for x in combo]
                 conn = mk(name, *combo)
+                whole = repr(conn)
                 try:
                     res = run(f, conn)
+                    changed = [b for b, x in zip(before, combo) if repr(x) != b]
+                    if changed and f.name in mutating:
+                        continue
+                    if changed:
+                        mutating.add(f.name)
+                        # a constructor hands out new formulas; the operands it was given keep their meaning (they are shared between
+                        # constraints: `pre = add_and(a, b); add_and(pre, d)` must leave `pre` alone)
+                        out.bad(f"{f.name}:mutates-operand", f"{f.name} applied to {whole} changes its operand {changed[0]} into "
+                                f"{[repr(x) for b, x in zip(before, combo) if repr(x) != b][0]}: every formula built from that operand changes its truth value",
+                                where(f), {"input": whole})
+                        continue
                 except Raised as e:
                     out.bad(f"{f.name}:raises:{_shape(combo)}", f"{f.name} raises {e.what} on {conn!r}; the unsimplified formula has a truth value",
                             where(f), {"input": repr(conn)})
